@@ -193,6 +193,8 @@ def main(argv=None):
     undecided = []
     crashes = []
     models_replayed = 0
+    fallback_cases = []
+    bounded_runs = []
     total_paths = total_queries = 0
     solver_time = 0.0
     for r in results:
@@ -206,6 +208,8 @@ def main(argv=None):
             (crashes if r["error"].startswith(("HARNESS", "TASK")) else undecided).append(
                 "%s[%s]: %s" % (cname, case_id(r["case"]), r["error"]))
             obligations[ob_id(c.name, r["case"], "*")] = "error"
+            if not r["error"].startswith(("HARNESS", "TASK")):
+                fallback_cases.append(r)
             continue
         if r.get("canary_ok") is False or not r["clauses"]:
             crashes.append("%s[%s]: vacuous (no feasible path / contradictory requires)" % (
@@ -265,6 +269,39 @@ def main(argv=None):
             else:
                 undecided.append("%s: counter-model does not replay (engine divergence or the "
                                  "contract needs work): %s" % (oid, json.dumps(fl[0]["model"])[:300]))
+
+    # bounded fallback: code the symbolic engine could not execute (only ever on a changed tree: the
+    # unchanged tree has no such case).  A concrete failing input is a violation; finding none
+    # leaves the case undecided.  Never counted as proved.
+    if fallback_cases:
+        ctx = mp.get_context("fork")
+        jobs = [(r["module"], r["contract"], r["case"], 1500 if tier == "quick" else 20000, a.seed)
+                for r in fallback_cases[:200]]
+        with ctx.Pool(min(a.jobs, len(jobs))) as pool:
+            outs = pool.starmap(driver.bounded_subprocess, jobs)
+        for r, b in zip(fallback_cases, outs):
+            cname = r["contract"]
+            c = byname[cname][1]
+            bounded_runs.append({"contract": c.name, "case": r["case"],
+                                 "samples": b.get("samples"), "accepted": b.get("accepted"),
+                                 "failures": len(b.get("failures", [])), "error": b.get("error")})
+            for fl in b.get("failures", [])[:1]:
+                for clause in fl["failed_clauses"][:2]:
+                    oid = ob_id(c.name, r["case"], clause)
+                    if known_match(known, pid, oid):
+                        known_seen.append((oid, fl.get("call"), fl.get("outcome")))
+                        continue
+                    path = write_replay(pid, oid, {
+                        "property": pid, "obligation": oid, "function": c.func,
+                        "found_by": "bounded stand-in (the changed code is outside the symbolic "
+                                    "engine's reach: %s)" % r["error"][:300],
+                        "failing_input": fl["values"], "replay_on_real_code": fl,
+                        "how_to_rerun": "cd /verif && echo '%s' | PYTHONPATH=/repo:/verif "
+                                        ".venv/bin/python -m pyvc.replay" % json.dumps({
+                                            "module": r["module"], "contract": cname,
+                                            "case": r["case"], "values": fl["values"]}),
+                    })
+                    violations.append((oid, path, False))
 
     # stand-ins
     standin_results = []
@@ -331,7 +368,7 @@ def main(argv=None):
 
     write_evidence(pid, tier, a.seed, cs, results, obligations, n_ob, n_dis, standin_results,
                    violations, known_seen, undecided, crashes, total_paths, total_queries,
-                   solver_time, models_replayed, wall, only=a.only)
+                   solver_time, models_replayed, wall, only=a.only, bounded_runs=bounded_runs)
     print("%s tier=%s obligations=%d discharged=%d paths=%d queries=%d solver=%.1fs standins=%s "
           "violations=%d known=%d undecided=%d wall=%.1fs" % (
               pid, tier, n_ob, n_dis, total_paths, total_queries, solver_time,
@@ -395,7 +432,7 @@ def scan_assumptions():
 
 def write_evidence(pid, tier, seed, cs, results, obligations, n_ob, n_dis, standin_results,
                    violations, known_seen, undecided, crashes, total_paths, total_queries,
-                   solver_time, models_replayed, wall, only=None):
+                   solver_time, models_replayed, wall, only=None, bounded_runs=()):
     from pyvc import instrument
 
     import contracts
@@ -438,6 +475,7 @@ def write_evidence(pid, tier, seed, cs, results, obligations, n_ob, n_dis, stand
         "checker_errors": crashes[:20],
         "standins": [{k: v for k, v in s.items() if k not in ("failures", "samples")}
                      for s in standin_results],
+        "bounded_fallback_runs": bounded_runs[:50],
         "standin_failures": sum(len(s.get("failures", [])) for s in standin_results),
         "evaluations": max(1, standin_eval + total_paths),
         "distinct_nontrivial": max(2, standin_distinct + n_ob),
